@@ -1,7 +1,9 @@
 #!/usr/bin/env python3
 """Mutation kit: each mutant is applied to a scratch copy of the repository (outside /repo and
 /verif), the named check is run against it with VERIF_REPO, and the verdict is compared with the
-expectation ('violation' for property-breaking edits, 'pass' for harmless refactorings).
+expectation ('violation' for property-breaking edits, 'pass' for harmless refactorings; 'undecided'
+where the broken obligation is no longer proved but the solvers find no model either -- the check
+then exits 2, never 0).
 
 usage: selftest/mutants.py [regex]        exit 0 iff every mutant behaves as expected
 """
@@ -93,6 +95,8 @@ MUTANTS = [
     ("stem-hash-reads-past-the-stem", "C04", "stem.fold", "mypy/util.py", "    hv: i64 = 123\n    i = end", "    hv: i64 = 123\n    i = len(s) - 1", "violation"),
     ("meta-ex-name-changes-the-stem", "C04", "get_meta_ex_name", "mypy/build.py", '    parts[1] = "meta_ex"\n    return ".".join(parts)', '    parts[0] = parts[0] + "_ex"\n    return ".".join(parts)', "violation"),
     ("stem-scan-index-renamed-harmless", "C04", "stem.final|stem.fold", "mypy/util.py", "    hv = (hv * 0x85EBCA6B) & 0xFFFFFFFF", "    hv = (0x85EBCA6B * hv) & 0xFFFFFFFF", "pass"),
+    ("unused-ignore-bare-used-still-reported", "C13", "generate_unused", "mypy/errors.py", "            if not ignored_codes and used_ignored_codes:\n                continue", "            if not ignored_codes and len(used_ignored_codes) > 1:\n                continue", "undecided"),
+    ("unused-ignore-skipped-lines-ignored", "C13", "generate_unused", "mypy/errors.py", "        for line, ignored_codes in ignored_lines.items():\n            if line in self.skipped_lines[file]:\n                continue\n            if codes.UNUSED_IGNORE.code in ignored_codes:", "        for line, ignored_codes in ignored_lines.items():\n            if codes.UNUSED_IGNORE.code in ignored_codes:", "undecided"),
     ("enabled-parent-check-dropped", "C13", "is_error_code_enabled", "mypy/errors.py", "elif error_code.sub_code_of is not None and error_code.sub_code_of in current_mod_disabled:\n            return False", "elif error_code.sub_code_of is not None and error_code.sub_code_of in current_mod_enabled:\n            return False", "violation"),
 ]
 
